@@ -11,7 +11,7 @@ from __future__ import annotations
 
 import json
 
-from harness import diagramdriver, layerdriver, ruledriver
+from harness import diagramdriver, labeldriver, layerdriver, ruledriver
 
 
 def _cfg_id(fam, cfg):
@@ -33,7 +33,8 @@ def run_episode(spec, uid="E"):
     shared = {}
     fam_spec = {"rules": {"driver": "rules", "world": world0, "render": "ident", "items": []},
                 "layers": {"driver": "layers", "world": world0, "render": "ident", "items": []},
-                "diagram": {"driver": "diagram", "world": world0, "items": []}}
+                "diagram": {"driver": "diagram", "world": world0, "items": []},
+                "labels": {"driver": "labels", "world": world0, "render": "ident", "items": []}}
     imports = {0: []}            # arch number (0-based) -> import list
     objs = {}
     plan = []                    # (family, item) in history order; grow goes to rules and layers
@@ -45,6 +46,15 @@ def run_episode(spec, uid="E"):
             imports[a2] = imports[a] + [h["e"]]
             it = {"op": "addimport", "a": a, "a2": a2, "e": h["e"]}
             plan += [("rules", it), ("layers", it)]
+        elif h["op"] == "viz":          # visualize(aliases=...) on a shared architecture; alias text = a fixed token per module
+            a = h["arch"] - 1
+            al = [{"mod": list(m), "text": "AL_" + "_".join(m).upper()} for m in sorted(h["aliased"])]
+            plan.append(("rules", {"op": "touch", "a": a}))      # the rule driver owns (builds, grows) the architectures
+            plan.append(("labels", {"op": "viz", "a": a, "rid": _cfg_id("viz", al), "aliases": al, "kw": {}, "spacing": None}))
+        elif h["op"] == "query":        # one of the three graph questions on a shared architecture
+            c = h["cfg"]
+            fl = lambda fs: [{"kind": f["kind"], "name": f["name"], "matches": []} for f in sorted(fs, key=lambda f: (f["kind"], f["name"]))]
+            plan.append(("rules", {"op": "query", "a": h["arch"] - 1, "q": c["q"], "dependents": fl(c["dep"]), "upons": fl(c["upon"])}))
         else:
             fam, cfg = objs[h["obj"]]
             a = h["arch"] - 1
@@ -60,20 +70,27 @@ def run_episode(spec, uid="E"):
                                          "only": cfg["only"], "base": [], "obj": h["obj"]}))
     for fam, it in plan:
         fam_spec[fam]["items"].append(it)
-    events = {"rules": [], "layers": [], "diagram": []}
+    events = {"rules": [], "layers": [], "diagram": [], "labels": []}
     gens = {"rules": ruledriver.iter_episode(fam_spec["rules"], uid + "r", shared, events["rules"]),
             "layers": layerdriver.iter_episode(fam_spec["layers"], uid + "l", shared, events["layers"]),
-            "diagram": diagramdriver.iter_episode(fam_spec["diagram"], uid + "d", shared, events["diagram"])}
-    drivers = {"rules": ruledriver, "layers": layerdriver, "diagram": diagramdriver}
+            "diagram": diagramdriver.iter_episode(fam_spec["diagram"], uid + "d", shared, events["diagram"]),
+            "labels": labeldriver.iter_episode(fam_spec["labels"], uid + "v", shared, events["labels"])}
+    drivers = {"rules": ruledriver, "layers": layerdriver, "diagram": diagramdriver, "labels": labeldriver}
     # the diagram driver knows only world 0: give it the grown worlds through the shared architectures, which the
     # rule driver builds; so a grow is always stepped in the rule driver first (plan order guarantees it)
     for fam, it in plan:
         next(gens[fam])
-        if it["op"] in ("eval", "leval", "deval"):
+        if it["op"] in ("eval", "leval", "deval", "viz"):
             ev = events[fam][-1]
             iso = dict(it)
             iso.pop("obj", None)
             iso["a"] = 0
+            if it["op"] == "viz":      # the same call on a freshly built architecture with the same imports
+                fresh = labeldriver.run_episode({**fam_spec[fam], "world": {"modules": spec["modules"],
+                                                                            "imports": imports[it["a"]]},
+                                                 "items": [{k: v for k, v in iso.items() if k != "a"}]}, uid + "f")[-1]
+                ev["fresh_same"] = all(ev.get(k) == fresh.get(k) for k in ("out", "labels", "err_names", "drawn_nodes"))
+                continue
             fresh = drivers[fam].run_episode({**fam_spec[fam], "world": {"modules": spec["modules"],
                                                                          "imports": imports[it["a"]]},
                                               "items": [iso], "share": False}, uid + "f")[-1]
